@@ -19,8 +19,8 @@ open RsslVerif.Gen.FmtTables RsslVerif.Gen.ParseTables
 /-! ## Syntax trees -/
 mutual
 inductive Expr where
-  /-- literal, named `kind value` exactly as in the request syntax, e.g. `i 3`, `f32 0x3fc00000` -/
-  | lit (n : String)
+  /-- literal value (kind, sign, magnitude / bit pattern) -/
+  | lit (l : Lit)
   /-- (scoped) identifier, named by its text, e.g. `a`, `N::v`, `::a` -/
   | id (n : String)
   | un (op : UnOp) (e : Expr)
@@ -187,30 +187,15 @@ def unPiece (op : UnOp) : Piece := .t (unTok op) (unSpell op)
   cases op <;> rfl
 
 /-! ## Literals (`format_literal`, target HLSL) followed by what the lexer makes of the text -/
-def natOfDec? (s : String) : Option Nat := if s.isEmpty then none else s.toNat?
 
-def hexVal? (s : String) : Option Nat :=
-  if s.startsWith "0x" then
-    (s.drop 2).toString.toList.foldl (fun acc c =>
-      match acc with
-      | none => none
-      | some a =>
-        if '0' ≤ c ∧ c ≤ '9' then some (a * 16 + (c.toNat - '0'.toNat))
-        else if 'a' ≤ c ∧ c ≤ 'f' then some (a * 16 + (c.toNat - 'a'.toNat + 10))
-        else none) (some 0)
-  else none
-
-def hexDigits (width n : Nat) : String :=
-  let ds := (List.range width).reverse.map fun i => "0123456789abcdef".toList.getD ((n / 16 ^ i) % 16) '0'
-  String.ofList ds
-
-/-- eighths of a binary float: `(negative, q)` with value `±q/8`, when the value is a multiple of 1/8 below 4096 -/
-def eighths? (expBits manBits bits : Nat) : Option (Bool × Nat) :=
-  let neg := bits / 2 ^ (expBits + manBits) % 2 == 1
+/-- eighths of a binary float given without its sign bit: `q` with value `q/8`, when the value is a multiple of 1/8
+below 4096 (there Rust's shortest-round-trip `Display` is the exact decimal expansion) -/
+def eighths? (expBits manBits bits : Nat) : Option Nat :=
   let e := bits / 2 ^ manBits % 2 ^ expBits
   let m := bits % 2 ^ manBits
   let bias := 2 ^ (expBits - 1) - 1
-  if e == 0 then (if m == 0 then some (neg, 0) else none)
+  if bits ≥ 2 ^ (expBits + manBits) then none
+  else if e == 0 then (if m == 0 then some 0 else none)
   else if e == 2 ^ expBits - 1 then none
   else
     -- value = (2^manBits + m) * 2^(e - bias - manBits); times 8
@@ -219,10 +204,10 @@ def eighths? (expBits manBits bits : Nat) : Option (Bool × Nat) :=
     let lo := bias + manBits
     if sh ≥ lo then
       let q := sig * 2 ^ (sh - lo)
-      if q < 8 * 4096 then some (neg, q) else none
+      if q < 8 * 4096 then some q else none
     else
       let d := 2 ^ (lo - sh)
-      if sig % d == 0 then some (neg, sig / d) else none
+      if sig % d == 0 then some (sig / d) else none
 
 /-- Rust `Display` of `q/8` when it is not integral -/
 def fracText (q : Nat) : String :=
@@ -230,54 +215,48 @@ def fracText (q : Nat) : String :=
     | 1 => "125" | 2 => "25" | 3 => "375" | 4 => "5" | 5 => "625" | 6 => "75" | _ => "875"
   toString (q / 8) ++ "." ++ frac
 
-/-- pieces of a literal named `kind value`; `none` = outside the modelled subset.
+/-- text of a non-negative float of `q` eighths: whole values get `.0` (all four kinds since 8468e83) -/
+def floatText (q : Nat) (suffix : String) : String :=
+  (if q % 8 == 0 then toString (q / 8) ++ ".0" else fracText q) ++ suffix
+
+def minusPiece : Piece := .t (.p .Minus) "-"
+
+/-- a float literal: the token is the non-negative literal; a set sign bit prints a `-` in front — except on zero,
+where the whole-value arms (`v == v as i64 as f`) ignore the sign and print `0.0` -/
+def floatPieces (l : Lit) (expBits manBits : Nat) (suffix : String) : Option (List Piece) :=
+  match eighths? expBits manBits l.mag with
+  | some q =>
+    let tok : Piece := .t (.lit { l with neg := false }) (floatText q suffix)
+    some (if l.neg && q != 0 then [minusPiece, tok] else [tok])
+  | none => none
+
+/-- pieces of a literal; `none` = outside the modelled subset (strings, non-dyadic or large floats, inf, NaN).
 The tokens are the ones the lexer produces for the printed text (so a negative literal is a `-` and a literal). -/
-def litPieces (n : String) : Option (List Piece) :=
-  match n.splitOn " " with
-  | ["b", "1"] => some [.t (.lit n) "true"]
-  | ["b", "0"] => some [.t (.lit n) "false"]
-  | ["i", v] => (natOfDec? v).map fun k => [.t (.lit ("i " ++ toString k)) (toString k)]
-  | ["u", v] => (natOfDec? v).map fun k => [.t (.lit ("u " ++ toString k)) (toString k ++ "u")]
-  | ["ul", v] => (natOfDec? v).map fun k => [.t (.lit ("ul " ++ toString k)) (toString k ++ "ul")]
-  | ["l", v] =>
-    if v.startsWith "-" then
-      (natOfDec? (v.drop 1).toString).map fun k =>
-        -- the lexer reads the digits as u64 and casts to i64: 2^63 wraps to i64::MIN
-        let name := if k ≥ 2 ^ 63 then "l -" ++ toString (2 ^ 64 - k) else "l " ++ toString k
-        [.t (.p .Minus) "-", .t (.lit name) (toString k ++ "l")]
-    else (natOfDec? v).map fun k => [.t (.lit ("l " ++ toString k)) (toString k ++ "l")]
-  | ["f32", v] =>
-    match (hexVal? v).bind (eighths? 8 23) with
-    | some (neg, q) =>
-      let text := if q % 8 == 0 then toString (q / 8) ++ ".0f" else fracText q ++ "f"
-      let bits := (hexVal? v).getD 0 % 2 ^ 31
-      let tok : Piece := .t (.lit ("f32 0x" ++ hexDigits 8 bits)) text
-      some (if neg && q != 0 then [.t (.p .Minus) "-", tok] else [tok])
-    | none => none
-  | ["f", v] =>
-    match (hexVal? v).bind (eighths? 11 52) with
-    | some (neg, q) =>
-      let text := if q % 8 == 0 then toString (q / 8) ++ ".0" else fracText q
-      let bits := (hexVal? v).getD 0 % 2 ^ 63
-      let tok : Piece := .t (.lit ("f 0x" ++ hexDigits 16 bits)) text
-      some (if neg && q != 0 then [.t (.p .Minus) "-", tok] else [tok])
-    | none => none
-  | ["f64", v] =>
-    match (hexVal? v).bind (eighths? 11 52) with
-    | some (neg, q) =>
-      let bits := (hexVal? v).getD 0 % 2 ^ 63
-      -- `{v}L`: an integral value prints without a fraction and reads back as a 64-bit integer
-      let tok : Piece :=
-        if q % 8 == 0 then .t (.lit ("l " ++ toString (q / 8))) (toString (q / 8) ++ "L")
-        else .t (.lit ("f64 0x" ++ hexDigits 16 bits)) (fracText q ++ "L")
-      some (if neg then [.t (.p .Minus) "-", tok] else [tok])
-    | none => none
-  | _ => none
+def litPieces (l : Lit) : Option (List Piece) :=
+  match l.kind with
+  | .Bool => if l.neg || l.mag > 1 then none else some [.t (.lit l) (if l.mag == 1 then "true" else "false")]
+  | .IntUntyped => if l.neg then none else some [.t (.lit l) (toString l.mag)]
+  | .IntUnsigned32 => if l.neg then none else some [.t (.lit l) (toString l.mag ++ "u")]
+  | .IntUnsigned64 => if l.neg then none else some [.t (.lit l) (toString l.mag ++ "ul")]
+  | .IntSigned64 =>
+    -- `{v}l`: a negative value prints its sign; the digits are lexed on their own
+    let tok : Piece := .t (.lit { l with neg := false }) (toString l.mag ++ "l")
+    if l.neg then (if l.mag == 0 then none else some [minusPiece, tok]) else some [tok]
+  | .FloatUntyped => floatPieces l 11 52 ""
+  | .Float16 => floatPieces l 8 23 "h"
+  | .Float32 => floatPieces l 8 23 "f"
+  | .Float64 => floatPieces l 11 52 "L"
+  | .String => none
+
+/-- an `l`-suffixed literal whose digits do not fit in a signed 64-bit value is a lexer error (dc17362), and so is a
+`u`-suffixed one that does not fit in 32 bits (93e9a96) -/
+def litTooLarge (l : Lit) : Bool :=
+  (l.kind == .IntSigned64 && l.mag ≥ 2 ^ 63) || (l.kind == .IntUnsigned32 && l.mag ≥ 2 ^ 32)
 
 /-- the literal prints as exactly one token that reads back as itself -/
-def LitOk (n : String) : Bool :=
-  match litPieces n with
-  | some [.t (.lit m) _] => m == n
+def LitOk (l : Lit) : Bool :=
+  match litPieces l with
+  | some [.t (.lit m) _] => m == l && !litTooLarge l
   | _ => false
 
 /-! ## `format_subexpression` -/
@@ -317,7 +296,7 @@ def falseIsAssignment (b : Expr) : Bool :=
 
 /-- literal pieces, total: outside the modelled subset a placeholder (the driver answers `unsupported` there,
 see `Expr.supported`; theorems assume `LitOk`) -/
-def litPiecesT (n : String) : List Piece := (litPieces n).getD [.t (.lit n) "?"]
+def litPiecesT (l : Lit) : List Piece := (litPieces l).getD [.t (.lit l) "?"]
 
 mutual
 /-- `format_subexpression expr outer side` -/
